@@ -3941,7 +3941,7 @@ class Gtxnas(Instruction):
         return self._field
 
     def __str__(self) -> str:
-        return f"Gtxnas {self._idx} {self._field}"
+        return f"gtxnas {self._idx} {self._field}"
 
     @property
     def stack_pop_size(self) -> int:
@@ -5186,7 +5186,7 @@ class Gitxnas(Instruction):
         return 1
 
     def __str__(self) -> str:
-        return f"Gitxnas {self._idx} {self._field}"
+        return f"gitxnas {self._idx} {self._field}"
 
 
 class Method(Instruction):
